@@ -198,7 +198,21 @@ def dump_db(db):
     return d
 
 
+def _check_sections(db):
+    """every section of a Database holds objects of its own kind only"""
+    from pydbml.classes import Table, Reference, Enum, TableGroup, StickyNote
+    for attr, cls in (('tables', Table), ('refs', Reference), ('enums', Enum), ('table_groups', TableGroup),
+                      ('sticky_notes', StickyNote)):
+        sec = getattr(db, attr)
+        if not isinstance(sec, list):
+            raise NotADatabase(f'{attr} is a {type(sec).__name__}')
+        for x in sec:
+            if not isinstance(x, cls):
+                raise NotADatabase(f'{attr} holds a {type(x).__name__}')
+
+
 def _dump_db(db, p):
+    _check_sections(db)
     return {
         'tables': [dump_table(t, db) for t in db.tables],
         'refs': [dump_ref(r, db) for r in db.refs],
